@@ -1069,6 +1069,16 @@ func ruleR1_6(r *Run) {
 	r.check(p == nil && anyValue != nil, "findMatch:own-entry-supersedes-ancestors",
 		"a live own entry is returned, and only after invalidateAncestors marked the older candidates",
 		"findMatch returns its own entry without marking ancestors' entries as superseded (a merge would see stale candidates), or never returns it", w.fpos(f), w.renderPath(p)...)
+	// a deletion stored at v hides older values on every lineage: the nil (tombstone) success exit, too,
+	// lies behind invalidateAncestors
+	anyRet := func(in ssa.Instruction) bool {
+		ret, ok := in.(*ssa.Return)
+		return ok && !isErrorExit(ret)
+	}
+	p = findPath(f, nil, isInv, anyRet, s.EdgeFeasible)
+	r.check(p == nil, "findMatch:own-entry-or-deletion-supersedes-ancestors",
+		"with a live or deleted entry at v every success exit lies behind invalidateAncestors",
+		"findMatch leaves with its own entry (value or deletion) without marking the ancestors' entries as superseded: another parent of a merge that still reaches the older value presents it as live", w.fpos(f), w.renderPath(p)...)
 	// own entry wins over ancestors: with found, no recursive ascent is feasible
 	asc := false
 	s.eachFeasible(func(in ssa.Instruction) {
@@ -1127,6 +1137,52 @@ func ruleR1_6(r *Run) {
 				fmt.Sprintf("with %d surviving candidates no value is returned successfully", n),
 				fmt.Sprintf("with %d unsuperseded live candidates among merge parents findMatch succeeds with one of them", n), bad)
 		}
+	}
+	// (e) the entry returned for a merge is the surviving candidate's: which candidate survives is only
+	// known after every parent was scanned (a later parent's lineage can supersede or delete an earlier
+	// match), so the returned entry has to be computed from the filtered candidate set or from a
+	// look-up in the candidate entries made for it, not only from what the scan remembered.
+	if len(lenCalls) > 0 {
+		cand := map[ssa.Value]bool{}
+		for _, lc := range lenCalls {
+			cand[lc.Call.Args[0]] = true
+		}
+		n, bad := 0, ""
+		for _, b := range f.Blocks {
+			ret, ok := b.Instrs[len(b.Instrs)-1].(*ssa.Return)
+			if !ok || isErrorExit(ret) {
+				continue
+			}
+			v := retOperand(ret, 0)
+			if isNilConst(v) || isRecursive(v) {
+				continue
+			}
+			viaLen := false
+			for _, lc := range lenCalls {
+				if lc.Block().Dominates(b) {
+					viaLen = true
+				}
+			}
+			if !viaLen {
+				continue
+			}
+			n++
+			dep := false
+			for d := range dataDeps(v) {
+				switch x := d.(type) {
+				case *ssa.Range:
+					dep = dep || cand[x.X]
+				case *ssa.Lookup:
+					dep = dep || cand[x.X] || (x.X == ssa.Value(f.Params[1]) && x.Index != ssa.Value(f.Params[2]))
+				}
+			}
+			if !dep {
+				bad = w.pos(ret.Pos())
+			}
+		}
+		r.check(n > 0 && bad == "", "findMatch:merge-returns-the-surviving-candidate",
+			fmt.Sprintf("%d merge exit(s) return an entry computed from the filtered candidate set", n),
+			"the entry a merge read returns does not depend on which candidate survived the supersession filter (it is whatever the parent scan remembered): with three parents, a lineage that deletes an earlier match leaves that deleted value as the answer", bad)
 	}
 	// invalidateAncestors marks and recurses over all parents
 	inv := w.method("datastore", "repoManager", "invalidateAncestors")
